@@ -8,5 +8,6 @@ TECHNIQUE = {
     'C06': 'typestate analysis: finite transition system extracted from BusAuthenticator by abstract interpretation, explored exhaustively and compared with the specification\'s server table; path rules for line-mode limits and mechanism acceptance',
     'C20': 'static ordering/FIFO rules: path enumeration of sender, receiver-queue and header-construction functions',
     'C07': 'typestate analysis: finite transition system extracted from ClientAuthenticator (exact constant propagation over the mechanism list), explored exhaustively; attribute-discipline lint',
+    'C03': 'static writer/reader agreement: header tables vs specification, header typing by path enumeration of _marshal, flag and padding expressions evaluated by constant folding over their finite domains, constructor validation on all paths',
     'C02': 'static conformance check of the extracted codec model against specification tables; padding function interpreted in the congruence domain mod 8',
 }
